@@ -53,21 +53,23 @@ theorem modelElems_eq_spec (db : Db F) (r : RSym) (id : Option Bytes) :
     | nil => simp [modelElems, specElems, stacked_eq_flatMap]
     | cons x xs => simp [modelElems, specElems, stacked_eq_flatMap]
 
-theorem cursorRows_eq (linked : Option Nat) (es : List (SVal F))
-    (h : ∀ c' ∈ cursorRowsOf linked es, c'.2.isNone = false) :
-    cursorRowsOf linked es = subRowsOf linked es := by
+theorem filter_const_true {α} (l : List α) : l.filter (fun _ => true) = l := by
+  induction l with
+  | nil => rfl
+  | cons a t ih => simp [ih]
+
+theorem cursorRows_live (linked : Option Nat) (es : List (SVal F)) :
+    (cursorRowsOf linked es).filter (fun c' => !c'.2.isNone) = subRowsOf linked es := by
   cases linked with
   | none => rfl
   | some st' =>
-    simp only [cursorRowsOf, subRowsOf] at h ⊢
+    simp only [cursorRowsOf, subRowsOf]
     induction es with
     | nil => rfl
     | cons v vs ih =>
-      have hv := h (st', linkKey v) (by simp)
-      have ih' := ih (fun c' hc' => h c' (by simp only [List.map_cons, List.mem_cons]; exact Or.inr hc'))
       cases hk : linkKey v with
-      | none => simp [hk] at hv
-      | some k => simp [List.filterMap_cons, hk, ih']
+      | none => simpa [List.filterMap_cons, hk] using ih
+      | some k => simpa [List.filterMap_cons, hk] using ih
 
 theorem pathLinked_of_plain (r : RSym) (h : r.plainCursor = true) : r.pathLinked = r.linked := by
   cases r with
@@ -81,15 +83,13 @@ theorem pathLinked_of_plain (r : RSym) (h : r.plainCursor = true) : r.pathLinked
 theorem world_elems_eq (db : Db F) (c : Ctx) (n : String) :
     (modelWorld db).elems c n = (specWorld db).elems c n ∧
     (modelWorld db).val c n = (specWorld db).val c n ∧
-    (namePlain db.defs c.1 n = true →
-      (∀ c' ∈ (modelWorld db).subRows c n, (modelWorld db).nilRow c' = false) →
-      (modelWorld db).subRows c n = (specWorld db).subRows c n) := by
-  simp only [modelWorld, specWorld, namePlain]
+    (namePlain db.defs c.1 n = true → liveRows (modelWorld db) c n = liveRows (specWorld db) c n) := by
+  simp only [liveRows, modelWorld, specWorld, namePlain]
   cases hr : resolve db.defs c.1 (splitName n) with
   | none => simp
   | some r =>
     refine ⟨by simp [modelElems_eq_spec db r], trivial, ?_⟩
-    intro h hn
+    intro h
     simp only at h
     have hk : cursorKeys db r c.2 = specElems db r c.2 := by
       cases r with
@@ -99,9 +99,9 @@ theorem world_elems_eq (db : Db F) (c : Ctx) (n : String) :
         cases last with
         | nil => simp [cursorKeys, specElems, stacked_eq_flatMap]
         | cons x xs => simp [RSym.plainCursor] at h
-    simp only [hk] at hn ⊢
+    simp only [hk, Bool.not_false, filter_const_true]
     rw [pathLinked_of_plain r h]
-    exact cursorRows_eq _ _ hn
+    exact cursorRows_live _ _
 
 @[simp] theorem symType_spec (defs : List StoreDef) (t : Nat) (n : String) :
     symType (dbSpecSigma defs) t n = symType (dbSigma defs) t n := rfl
@@ -117,25 +117,23 @@ theorem setTypes_spec_of_plain (defs : List StoreDef) (t : Nat) (n : String) (h 
     plain cursors without nil rows) -/
 theorem sat_world_eq (db : Db F) (fo : FloatOps F) :
     ∀ (f : U F) (t : Nat) (c : Ctx), c.1 = t → subQueriesPlain db.defs t f = true →
-      subRowsNonNil (dbSigma db.defs) (modelWorld db) t f →
       sat (dbSigma db.defs) (modelWorld db) fo t c f = sat (dbSpecSigma db.defs) (specWorld db) fo t c f ∧
       lhsDen (dbSigma db.defs) (modelWorld db) fo t c f = lhsDen (dbSpecSigma db.defs) (specWorld db) fo t c f := by
   intro f
   induction f with
   | sym n =>
-    intro t c hc _ _
+    intro t c hc _
     subst hc
     have := world_elems_eq db c n
     simp [sat, lhsDen, this.2.1]
   | setFn fn n =>
-    intro t c hc _ _
+    intro t c hc _
     subst hc
     have := world_elems_eq db c n
     cases fn <;> simp [sat, lhsDen, this.1]
   | setFnSub fn n q sk li ih =>
-    intro t c hc h hnn
+    intro t c hc h
     subst hc
-    simp only [subRowsNonNil] at hnn
     simp only [subQueriesPlain, Bool.and_eq_true] at h
     have hw := world_elems_eq db c n
     have hsp := setTypes_spec_of_plain db.defs c.1 n h.1
@@ -144,9 +142,9 @@ theorem sat_world_eq (db : Db F) (fo : FloatOps F) :
     | some t' =>
       have hq : subQueriesPlain db.defs t' q = true := by simpa [hst] using h.2
       -- every sub-row context belongs to the linked store t'
-      have hctx : ∀ c' ∈ (specWorld db).subRows c n, c'.1 = t' := by
+      have hctx : ∀ c' ∈ liveRows (specWorld db) c n, c'.1 = t' := by
         intro c' hc'
-        simp only [specWorld] at hc'
+        simp only [liveRows, specWorld, Bool.not_false, filter_const_true] at hc'
         have hnp := h.1
         simp only [dbSigma, namePlain] at hst hnp
         cases hr : resolve db.defs c.1 (splitName n) with
@@ -159,24 +157,23 @@ theorem sat_world_eq (db : Db F) (fo : FloatOps F) :
           cases hk : linkKey v with
           | none => simp [hk] at hv
           | some k => simp [hk] at hv; rw [← hv]
-      have hfil : (List.filter (fun c' => sat (dbSigma db.defs) (modelWorld db) fo t' c' q) ((specWorld db).subRows c n)) =
-          (List.filter (fun c' => sat (dbSpecSigma db.defs) (specWorld db) fo t' c' q) ((specWorld db).subRows c n)) := by
+      have hfil : (List.filter (fun c' => sat (dbSigma db.defs) (modelWorld db) fo t' c' q) (liveRows (specWorld db) c n)) =
+          (List.filter (fun c' => sat (dbSpecSigma db.defs) (specWorld db) fo t' c' q) (liveRows (specWorld db) c n)) := by
         apply List.filter_congr
         intro c' hc'
-        exact (ih t' c' (hctx c' hc') hq (hnn.2 t' hst)).1
-      have hsub := hw.2.2 h.1 (hnn.1 c)
+        exact (ih t' c' (hctx c' hc') hq).1
+      have hsub := hw.2.2 h.1
       cases fn <;> simp [sat, lhsDen, hst, hsp, hsub, hfil]
-  | boolC b => intro t c _ _ _; simp [sat, lhsDen]
-  | cmp op l r ih => intro t c hc h hnn; simp [sat, lhsDen, (ih t c hc (by simpa [subQueriesPlain] using h) (by simpa [subRowsNonNil] using hnn)).2]
-  | inArr l arr ih => intro t c hc h hnn; simp [sat, lhsDen, (ih t c hc (by simpa [subQueriesPlain] using h) (by simpa [subRowsNonNil] using hnn)).2]
-  | between l lo hi ih => intro t c hc h hnn; simp [sat, lhsDen, (ih t c hc (by simpa [subQueriesPlain] using h) (by simpa [subRowsNonNil] using hnn)).2]
-  | notE e ih => intro t c hc h hnn; simp [sat, lhsDen, (ih t c hc (by simpa [subQueriesPlain] using h) (by simpa [subRowsNonNil] using hnn)).1]
-  | unot e ih => intro t c hc h hnn; simp [sat, lhsDen, (ih t c hc (by simpa [subQueriesPlain] using h) (by simpa [subRowsNonNil] using hnn)).1]
+  | boolC b => intro t c _ _; simp [sat, lhsDen]
+  | cmp op l r ih => intro t c hc h; simp [sat, lhsDen, (ih t c hc (by simpa [subQueriesPlain] using h)).2]
+  | inArr l arr ih => intro t c hc h; simp [sat, lhsDen, (ih t c hc (by simpa [subQueriesPlain] using h)).2]
+  | between l lo hi ih => intro t c hc h; simp [sat, lhsDen, (ih t c hc (by simpa [subQueriesPlain] using h)).2]
+  | notE e ih => intro t c hc h; simp [sat, lhsDen, (ih t c hc (by simpa [subQueriesPlain] using h)).1]
+  | unot e ih => intro t c hc h; simp [sat, lhsDen, (ih t c hc (by simpa [subQueriesPlain] using h)).1]
   | logic o l r ihl ihr =>
-    intro t c hc h hnn
+    intro t c hc h
     simp only [subQueriesPlain, Bool.and_eq_true] at h
-    simp only [subRowsNonNil] at hnn
-    simp [sat, lhsDen, (ihl t c hc h.1 hnn.1).1, (ihr t c hc h.2 hnn.2).1]
+    simp [sat, lhsDen, (ihl t c hc h.1).1, (ihr t c hc h.2).1]
 
 /-- seekable cursors of the bolt-backed world range over sorted string buckets -/
 theorem modelWorld_seekOK (db : Db F) (h : WellFormedDb db) : SeekOK (modelWorld db) := by
@@ -212,55 +209,6 @@ theorem resolve_out_of_range (defs : List StoreDef) (t : Nat) (h : defs[t]? = no
   | [] => rfl
   | [p] => by simp [resolve, lookupSym, h]
   | p :: q :: rest => by simp [resolve, h]
-
-/-- a symbol that is, wherever it resolves, a direct set symbol (`AddSetSymbol` / `AddFkSetSymbol`) -/
-def directSetName (defs : List StoreDef) (n : String) : Prop :=
-  ∀ t, match resolve defs t (splitName n) with
-    | some (.atom (.set ..)) => True
-    | none => True
-    | _ => False
-
-/-- the cursor of a direct set symbol over a well-formed database yields no nil key: a sub-query
-    over it satisfies `subRowsNonNil` -/
-theorem directSet_rows_nonNil (db : Db F) (hwf : WellFormedDb db) (n : String) (hd : directSetName db.defs n) :
-    ∀ c, ∀ c' ∈ (modelWorld db).subRows c n, (modelWorld db).nilRow c' = false := by
-  intro c c' hc'
-  have hdc := hd c.1
-  simp only [modelWorld] at hc' ⊢
-  cases hr : resolve db.defs c.1 (splitName n) with
-  | none => simp [hr] at hc'
-  | some r =>
-    simp only [hr] at hc' hdc
-    cases r with
-    | atom a =>
-      cases a with
-      | set st k ty l =>
-        simp only [RSym.linked, Atom.linked, cursorKeys, modelElems, levelVals] at hc'
-        cases l with
-        | none => simp [cursorRowsOf] at hc'
-        | some st' =>
-          simp only [cursorRowsOf, List.mem_map] at hc'
-          obtain ⟨v, hv, rfl⟩ := hc'
-          cases hid : c.2 with
-          | none => simp [hid] at hv
-          | some id =>
-            simp only [hid, Option.bind_some] at hv
-            cases he : findEntity db st id with
-            | none => simp [he] at hv
-            | some e =>
-              simp only [he] at hv
-              cases hl : e.sets.lookup k with
-              | none => simp [hl] at hv
-              | some es =>
-                simp only [hl, Option.getD_some] at hv
-                obtain ⟨ss, rfl, _⟩ := hwf st id e he k es hl
-                obtain ⟨s', _, rfl⟩ := List.mem_map.mp hv
-                rfl
-      | id => exact hdc.elim
-      | field st k ty l => exact hdc.elim
-      | mapElem st mk k ty => exact hdc.elim
-    | nonSetComp ch ty => exact hdc.elim
-    | compSet i l ty => exact hdc.elim
 
 theorem subQueriesPlain_of_noSubQuery (defs : List StoreDef) :
     ∀ (f : U F) (t : Nat), noSubQuery f = true → subQueriesPlain defs t f = true := by
